@@ -13,6 +13,12 @@
      to_camel_FooS_refuted  the witness outside the class
      to_lower_camel_to_snake lower_camel n -> to_lower_camel (to_snake n) = n
      to_snake_idem          ident n -> to_snake (to_snake n) = to_snake n
+     to_snake_idem_all      to_snake (to_snake n) = to_snake n for EVERY byte string
+                            (trim_space_to_snake: TrimSpace leaves every ToSnake output alone)
+     lower_camel_d / upper_word_d   camelCase WITH DIGITS (no capital after a capital, no lower-case
+                            letter after a digit): to_lower_camel_to_snake_d, to_camel_to_snake_d,
+                            to_snake_injective_lower_camel_d / _upper_word_d; the old letter-only classes
+                            are sub-classes (lower_camel_is_d, upper_word_is_d); outside: foo2bar / foo2Bar
      (totality of all functions is by construction: they are Gallina functions) *)
 From Coq Require Import List NArith Bool Lia ZifyN ZifyNat ZifyBool.
 From J5V.lib Require Import Strcase.
@@ -719,3 +725,483 @@ Proof.
   rewrite (to_lower_camel_upper_word c r Ha), (to_lower_camel_upper_word d s Hb) in H.
   inversion H. f_equal. lia.
 Qed.
+
+(* snake-normal identifiers (lower_snake field names) are their own snake form, so ToSnake is
+   injective on them too *)
+Theorem to_snake_injective_snake_nf : forall a b,
+  ident a = true -> snake_nf a = true -> ident b = true -> snake_nf b = true ->
+  to_snake a = to_snake b -> a = b.
+Proof.
+  intros a b Ha Na Hb Nb H. now rewrite (to_snake_fixed a Ha Na), (to_snake_fixed b Hb Nb) in H.
+Qed.
+
+(* ---- camelCase names WITH DIGITS ---------------------------------------------------------
+   letters and digits; a capital is never preceded by a capital and a lower-case letter never
+   by a digit (a digit ends a word: "address2Line", "fooB2", "v12Beta"; not "foo2bar", whose
+   snake form foo_2_bar is also that of "foo2Bar").  On this class ToLowerCamel / ToCamel
+   undo ToSnake, so ToSnake is injective. *)
+Fixpoint camel_tail_d (pc pd : bool) (s : list N) : bool :=
+  match s with
+  | [] => true
+  | c :: r => ((is_low c && negb pd) || (is_cap c && negb pc) || is_num c)
+              && camel_tail_d (is_cap c) (is_num c) r
+  end.
+Definition lower_camel_d (s : list N) : bool :=
+  match s with c :: r => is_low c && camel_tail_d false false r | [] => true end.
+Definition upper_word_d (s : list N) : bool :=
+  match s with c :: r => is_cap c && camel_tail_d true false r | [] => false end.
+
+Lemma camel_tail_d_ident : forall r pc pd, camel_tail_d pc pd r = true -> ident r = true.
+Proof.
+  induction r as [|x r IH]; intros pc pd H; [reflexivity|].
+  cbn [camel_tail_d] in H. apply andb_true_iff in H. destruct H as [Hx Hr].
+  cbn [ident forallb]. fold (ident r). rewrite (IH _ _ Hr), andb_true_r.
+  unfold plain. destruct (is_cap x), (is_low x), (is_num x); try reflexivity. discriminate.
+Qed.
+
+Lemma lower_camel_d_ident : forall w, lower_camel_d w = true -> ident w = true.
+Proof.
+  intros [|c r] H; [reflexivity|]. cbn [lower_camel_d] in H. apply andb_true_iff in H.
+  destruct H as [Hc Hr]. cbn [ident forallb]. fold (ident r).
+  rewrite (camel_tail_d_ident _ _ _ Hr), andb_true_r. unfold plain. rewrite Hc. now rewrite orb_true_r.
+Qed.
+Lemma upper_word_d_ident : forall w, upper_word_d w = true -> ident w = true.
+Proof.
+  intros [|c r] H; [discriminate|]. cbn [upper_word_d] in H. apply andb_true_iff in H.
+  destruct H as [Hc Hr]. cbn [ident forallb]. fold (ident r).
+  rewrite (camel_tail_d_ident _ _ _ Hr), andb_true_r. unfold plain. now rewrite Hc.
+Qed.
+
+(* the old classes are sub-classes *)
+Lemma camel_tail_is_d : forall r pc pd, camel_tail pc r = true -> pd = false -> camel_tail_d pc pd r = true.
+Proof.
+  induction r as [|c r IH]; intros pc pd H Hpd; [reflexivity|]. subst pd.
+  cbn [camel_tail] in H. apply andb_true_iff in H. destruct H as [Hc Hr].
+  cbn [camel_tail_d]. rewrite andb_true_r. apply andb_true_iff. split.
+  - apply orb_true_iff in Hc. destruct Hc as [Hc|Hc]; rewrite Hc; [reflexivity|].
+    destruct (is_low c); reflexivity.
+  - apply IH; [assumption|]. apply orb_true_iff in Hc. destruct Hc as [Hc|Hc].
+    + now apply low_not_num.
+    + apply andb_true_iff in Hc. destruct Hc as [Hc _]. now apply cap_not_num.
+Qed.
+Lemma lower_camel_is_d : forall s, lower_camel s = true -> lower_camel_d s = true.
+Proof.
+  intros [|c r] H; [reflexivity|]. cbn [lower_camel lower_camel_d] in *. apply andb_true_iff in H.
+  destruct H as [Hc Hr]. rewrite Hc. now apply camel_tail_is_d.
+Qed.
+Lemma upper_word_is_d : forall s, upper_word s = true -> upper_word_d s = true.
+Proof.
+  intros [|c r] H; [discriminate|]. cbn [upper_word upper_word_d] in *. apply andb_true_iff in H.
+  destruct H as [Hc Hr]. rewrite Hc. now apply camel_tail_is_d.
+Qed.
+
+Lemma camel_tail_d_after_cap : forall r pd, camel_tail_d true pd r = true -> head_cap r = false.
+Proof.
+  intros [|n r'] pd H; [reflexivity|]. cbn [camel_tail_d] in H. cbn [head_cap].
+  apply andb_true_iff in H. destruct H as [H _]. destruct (is_cap n) eqn:Ec; [|reflexivity].
+  rewrite (cap_not_low n Ec), (cap_not_num n Ec) in H. discriminate.
+Qed.
+Lemma camel_tail_d_after_num : forall r pc, camel_tail_d pc true r = true -> head_low r = false.
+Proof.
+  intros [|n r'] pc H; [reflexivity|]. cbn [camel_tail_d] in H. cbn [head_low].
+  apply andb_true_iff in H. destruct H as [H _]. destruct (is_low n) eqn:El; [|reflexivity].
+  rewrite (low_not_cap n El), (low_not_num n El) in H. discriminate.
+Qed.
+Lemma camel_tail_d_heads : forall r pc pd, camel_tail_d pc pd r = true ->
+  head_cap r || head_num r = false -> head_low r = true \/ r = [].
+Proof.
+  intros [|n r'] pc pd H Hh; [now right|]. left. cbn [camel_tail_d] in H. cbn [head_cap head_num head_low] in *.
+  apply andb_true_iff in H. destruct H as [H _]. apply orb_false_iff in Hh. destruct Hh as [Hc Hn].
+  rewrite Hc, Hn in H. destruct (is_low n); [reflexivity|]. cbn in H. discriminate.
+Qed.
+
+Lemma lcd_snake_aux : forall s pc pd f cn,
+  camel_tail_d pc pd s = true ->
+  (head_low s = true -> cn = false) -> (head_cap s = true -> cn = true) -> (f = true -> cn = false) ->
+  camel_go f cn false (delimited_go 95 false pc s) = s.
+Proof.
+  induction s as [|c r IH]; intros pc pd f cn Ht Hlo Hca Hf; [reflexivity|].
+  rewrite delimited_go_cons. cbn [head_low head_cap] in Hlo, Hca.
+  cbn [camel_tail_d] in Ht. apply andb_true_iff in Ht. destruct Ht as [Hc Hr].
+  destruct (is_cap c) eqn:Ec.
+  - (* capital, never after a capital: lowered by ToSnake, raised again by cap_next *)
+    rewrite (cap_not_low c Ec), (cap_not_num c Ec) in Hc. cbn in Hc. rewrite orb_false_r in Hc.
+    apply negb_true_iff in Hc. subst pc. specialize (Hca eq_refl). subst cn.
+    assert (f = false) by (destruct f; [discriminate (Hf eq_refl)|reflexivity]). subst f. cbn [andb app].
+    assert (Ev : conv false c = c + 32) by (unfold conv; rewrite (cap_not_low c Ec), Ec; reflexivity).
+    rewrite Ev. cbn [camel_go].
+    rewrite (cap_lower_is_low c Ec), (low_not_cap _ (cap_lower_is_low c Ec)). cbn [orb].
+    rewrite (cap_lower_upper c Ec). f_equal.
+    pose proof (camel_tail_d_after_cap _ _ Hr) as Hhc.
+    destruct (head_num r) eqn:Hn.
+    + cbn [app]. rewrite camel_go_underscore. apply (IH true (is_num c)); try assumption; try discriminate.
+      * intros Hl. destruct r as [|n r']; [discriminate|]. cbn [head_low head_num] in *.
+        rewrite (low_not_num n Hl) in Hn. discriminate.
+      * reflexivity.
+    + cbn [app]. apply (IH true (is_num c)); try assumption; try reflexivity.
+      intros Hx. rewrite Hx in Hhc. discriminate.
+  - destruct (is_low c) eqn:El.
+    + (* lower-case letter: copied; '_' follows iff a capital or a digit comes next *)
+      specialize (Hlo eq_refl). subst cn.
+      assert (Ev : conv false c = c) by (unfold conv; rewrite El, Ec; reflexivity).
+      rewrite Ev. cbn [camel_go]. rewrite Ec, El. cbn [orb andb].
+      assert (Ef : (if f then c else c) = c) by (destruct f; reflexivity). rewrite Ef. f_equal.
+      destruct (head_cap r || head_num r) eqn:Hh.
+      * cbn [app]. rewrite camel_go_underscore. apply (IH false (is_num c)); try assumption; try reflexivity; try discriminate.
+        intros Hl. destruct r as [|n r']; [discriminate|]. cbn [head_low head_cap head_num] in *.
+        rewrite (low_not_cap n Hl), (low_not_num n Hl) in Hh. discriminate.
+      * cbn [app]. apply (IH false (is_num c)); try assumption; try reflexivity.
+        intros Hx. rewrite Hx in Hh. discriminate.
+    + (* digit: copied; cap_next is set, so the capital that must follow is raised again *)
+      cbn in Hc. assert (En : is_num c = true) by (destruct (is_num c); [reflexivity|discriminate]).
+      rewrite En in *. pose proof (camel_tail_d_after_num _ _ Hr) as Hhl.
+      cbn [camel_go]. rewrite Ec, El. cbn [orb andb].
+      assert (Ev : (if cn then c else if f then c else c) = c) by (destruct cn, f; reflexivity).
+      rewrite Ev, En. f_equal. rewrite Hhl, orb_false_r.
+      destruct (head_cap r) eqn:Hh.
+      * cbn [app]. rewrite camel_go_underscore. apply (IH false true); try assumption; try reflexivity; try discriminate.
+        intros Hx. rewrite Hx in Hhl. discriminate.
+      * cbn [app]. apply (IH false true); try assumption; try reflexivity; try discriminate.
+        intros Hx. rewrite Hx in Hhl. discriminate.
+Qed.
+
+Theorem to_lower_camel_to_snake_d : forall n,
+  lower_camel_d n = true -> to_lower_camel (to_snake n) = n.
+Proof.
+  intros n Hn. pose proof (lower_camel_d_ident n Hn) as Hi.
+  unfold to_lower_camel, to_camel_init, to_snake, to_delimited, to_screaming_delimited.
+  rewrite (trim_space_ident n Hi), (trim_space_ident _ (ident_delimited n false Hi)).
+  destruct n as [|c r]; [reflexivity|]. cbn [lower_camel_d] in Hn.
+  apply andb_true_iff in Hn. destruct Hn as [Hc Hr].
+  apply (lcd_snake_aux (c :: r) false false); try reflexivity.
+  - cbn [camel_tail_d]. rewrite Hc, (low_not_num c Hc), (low_not_cap c Hc). exact Hr.
+  - cbn [head_cap]. rewrite (low_not_cap c Hc). discriminate.
+Qed.
+
+Theorem to_camel_to_snake_d : forall n, upper_word_d n = true -> to_camel (to_snake n) = n.
+Proof.
+  intros n Hn. pose proof (upper_word_d_ident n Hn) as Hi.
+  unfold to_camel, to_camel_init, to_snake, to_delimited, to_screaming_delimited.
+  rewrite (trim_space_ident n Hi), (trim_space_ident _ (ident_delimited n false Hi)).
+  destruct n as [|c r]; [discriminate|]. cbn [upper_word_d] in Hn.
+  apply andb_true_iff in Hn. destruct Hn as [Hc Hr].
+  rewrite delimited_go_cons, Hc. cbn [andb app].
+  assert (Ev : conv false c = c + 32) by (unfold conv; rewrite (cap_not_low c Hc), Hc; reflexivity).
+  rewrite Ev. cbn [camel_go].
+  rewrite (cap_lower_is_low c Hc), (low_not_cap _ (cap_lower_is_low c Hc)). cbn [orb].
+  rewrite (cap_lower_upper c Hc). f_equal.
+  pose proof (camel_tail_d_after_cap _ _ Hr) as Hhc.
+  destruct (head_num r) eqn:Hnum.
+  - cbn [app]. rewrite camel_go_underscore. apply (lcd_snake_aux r true false); try assumption; try discriminate.
+    + intros Hl. destruct r as [|n r']; [discriminate|]. cbn [head_low head_num] in *.
+      rewrite (low_not_num n Hl) in Hnum. discriminate.
+    + reflexivity.
+  - cbn [app]. apply (lcd_snake_aux r true false); try assumption; try reflexivity.
+    intros Hx. rewrite Hx in Hhc. discriminate.
+Qed.
+
+Theorem to_snake_injective_lower_camel_d : forall a b,
+  lower_camel_d a = true -> lower_camel_d b = true -> to_snake a = to_snake b -> a = b.
+Proof.
+  intros a b Ha Hb H. rewrite <- (to_lower_camel_to_snake_d a Ha), <- (to_lower_camel_to_snake_d b Hb).
+  now rewrite H.
+Qed.
+
+Theorem to_snake_injective_upper_word_d : forall a b,
+  upper_word_d a = true -> upper_word_d b = true -> to_snake a = to_snake b -> a = b.
+Proof.
+  intros a b Ha Hb H. rewrite <- (to_camel_to_snake_d a Ha), <- (to_camel_to_snake_d b Hb).
+  now rewrite H.
+Qed.
+
+(* outside the class: a lower-case letter right after a digit *)
+Theorem to_snake_digit_collision_witness :
+  let a := [102;111;111;50;98;97;114] in       (* "foo2bar" *)
+  let b := [102;111;111;50;66;97;114] in       (* "foo2Bar" *)
+  let c := [102;111;111;95;50;95;98;97;114] in (* "foo_2_bar" *)
+  a <> b /\ to_snake a = to_snake b /\ to_snake a = c /\ lower_camel_d b = true /\ lower_camel_d a = false.
+Proof. cbv zeta. repeat split; try discriminate; vm_compute; reflexivity. Qed.
+
+(* ---- ToSnake is idempotent on EVERY byte string ------------------------------------------------
+   What was missing: strings.TrimSpace leaves every output of the loop alone when the loop's
+   input was trimmed.  [lead_ok s]: s does not start with a white-space rune (the exact condition
+   under which TrimLeft returns s); the loop keeps every byte >= 128 in place and inserts
+   delimiters only between ASCII letters/digits, so it can neither create nor complete a
+   white-space encoding at either end. *)
+Definition lead_ok (s : list N) : bool :=
+  match s with
+  | [] => true
+  | c :: r => negb (ascii_space c) &&
+      match r with
+      | [] => true
+      | d :: r1 => negb (space2 c d) && match r1 with [] => true | e :: _ => negb (space3 c d e) end
+      end
+  end.
+(* the same for the reversed string (head = last byte) *)
+Definition trail_ok (s : list N) : bool :=
+  match s with
+  | [] => true
+  | c :: r => negb (ascii_space c) &&
+      match r with
+      | [] => true
+      | d :: r1 => negb (space2 d c) && match r1 with [] => true | e :: _ => negb (space3 e d c) end
+      end
+  end.
+
+Lemma lead_ok_fixed : forall s, lead_ok s = true -> trim_left s = s.
+Proof.
+  intros [|c r] H; [reflexivity|]. cbn [lead_ok] in H. apply andb_true_iff in H. destruct H as [H1 H].
+  apply negb_true_iff in H1. cbn [trim_left]. rewrite H1. destruct r as [|d r1]; [reflexivity|].
+  apply andb_true_iff in H. destruct H as [H2 H]. apply negb_true_iff in H2. rewrite H2.
+  destruct r1 as [|e r2]; [reflexivity|]. apply negb_true_iff in H. now rewrite H.
+Qed.
+Lemma trail_ok_fixed : forall s, trail_ok s = true -> trim_left_rev s = s.
+Proof.
+  intros [|c r] H; [reflexivity|]. cbn [trail_ok] in H. apply andb_true_iff in H. destruct H as [H1 H].
+  apply negb_true_iff in H1. cbn [trim_left_rev]. rewrite H1. destruct r as [|d r1]; [reflexivity|].
+  apply andb_true_iff in H. destruct H as [H2 H]. apply negb_true_iff in H2. rewrite H2.
+  destruct r1 as [|e r2]; [reflexivity|]. apply negb_true_iff in H. now rewrite H.
+Qed.
+
+(* TrimLeft returns a suffix that does not start with white space *)
+Lemma trim_left_spec : forall n s, (length s <= n)%nat ->
+  lead_ok (trim_left s) = true /\ exists p, s = p ++ trim_left s.
+Proof.
+  induction n as [|n IH]; intros s Hn.
+  - destruct s; [|cbn in Hn; lia]. split; [reflexivity|exists []; reflexivity].
+  - destruct s as [|c r]; [split; [reflexivity|exists []; reflexivity]|]. cbn [length] in Hn.
+    cbn [trim_left]. destruct (ascii_space c) eqn:E1.
+    + destruct (IH r ltac:(lia)) as [H1 [p Hp]]. split; [exact H1|]. exists (c :: p). cbn. now rewrite <- Hp.
+    + destruct r as [|d r1]; [split; [cbn; now rewrite E1|exists []; reflexivity]|].
+      destruct (space2 c d) eqn:E2.
+      * cbn [length] in Hn. destruct (IH r1 ltac:(lia)) as [H1 [p Hp]]. split; [exact H1|].
+        exists (c :: d :: p). cbn. now rewrite <- Hp.
+      * destruct r1 as [|e r2]; [split; [cbn; now rewrite E1, E2|exists []; reflexivity]|].
+        destruct (space3 c d e) eqn:E3.
+        -- cbn [length] in Hn. destruct (IH r2 ltac:(lia)) as [H1 [p Hp]]. split; [exact H1|].
+           exists (c :: d :: e :: p). cbn. now rewrite <- Hp.
+        -- split; [cbn; now rewrite E1, E2, E3|exists []; reflexivity].
+Qed.
+Lemma trim_left_rev_spec : forall n s, (length s <= n)%nat ->
+  trail_ok (trim_left_rev s) = true /\ exists p, s = p ++ trim_left_rev s.
+Proof.
+  induction n as [|n IH]; intros s Hn.
+  - destruct s; [|cbn in Hn; lia]. split; [reflexivity|exists []; reflexivity].
+  - destruct s as [|c r]; [split; [reflexivity|exists []; reflexivity]|]. cbn [length] in Hn.
+    cbn [trim_left_rev]. destruct (ascii_space c) eqn:E1.
+    + destruct (IH r ltac:(lia)) as [H1 [p Hp]]. split; [exact H1|]. exists (c :: p). cbn. now rewrite <- Hp.
+    + destruct r as [|d r1]; [split; [cbn; now rewrite E1|exists []; reflexivity]|].
+      destruct (space2 d c) eqn:E2.
+      * cbn [length] in Hn. destruct (IH r1 ltac:(lia)) as [H1 [p Hp]]. split; [exact H1|].
+        exists (c :: d :: p). cbn. now rewrite <- Hp.
+      * destruct r1 as [|e r2]; [split; [cbn; now rewrite E1, E2|exists []; reflexivity]|].
+        destruct (space3 e d c) eqn:E3.
+        -- cbn [length] in Hn. destruct (IH r2 ltac:(lia)) as [H1 [p Hp]]. split; [exact H1|].
+           exists (c :: d :: e :: p). cbn. now rewrite <- Hp.
+        -- split; [cbn; now rewrite E1, E2, E3|exists []; reflexivity].
+Qed.
+
+(* not starting with white space is inherited by prefixes *)
+Lemma lead_ok_prefix : forall a b, lead_ok (a ++ b) = true -> lead_ok a = true.
+Proof.
+  intros [|c [|d [|e a]]] b H; try reflexivity; cbn [app lead_ok] in *.
+  - apply andb_true_iff in H. destruct H as [H _]. now rewrite H.
+  - apply andb_true_iff in H. destruct H as [H1 H]. rewrite H1. destruct b; [exact H|].
+    apply andb_true_iff in H. destruct H as [H2 _]. now rewrite H2.
+  - exact H.
+Qed.
+
+(* TrimSpace yields a string that neither starts nor ends with white space *)
+Lemma trim_space_ok : forall s, lead_ok (trim_space s) = true /\ trail_ok (rev (trim_space s)) = true.
+Proof.
+  intros s. unfold trim_space, trim_right.
+  destruct (trim_left_spec (length s) s (le_n _)) as [Hl _]. set (x := trim_left s) in *.
+  destruct (trim_left_rev_spec (length (rev x)) (rev x) (le_n _)) as [Ht [p Hp]].
+  set (y := trim_left_rev (rev x)) in *. split; [|now rewrite rev_involutive].
+  apply (lead_ok_prefix (rev y) (rev p)). rewrite <- rev_app_distr, <- Hp, rev_involutive. exact Hl.
+Qed.
+
+Lemma ok_trim_space : forall s, lead_ok s = true -> trail_ok (rev s) = true -> trim_space s = s.
+Proof.
+  intros s Hl Ht. unfold trim_space, trim_right. rewrite (lead_ok_fixed s Hl), (trail_ok_fixed _ Ht).
+  apply rev_involutive.
+Qed.
+
+(* the loop on single bytes *)
+Definition hi (c : N) : bool := 128 <=? c.
+Definition out_byte (c : N) : N := if is_sep c then 95 else conv false c.
+
+Lemma hi_classes : forall c, hi c = true ->
+  is_cap c = false /\ is_low c = false /\ is_num c = false /\ is_sep c = false /\ ascii_space c = false.
+Proof. intros c H. unfold hi in H. unfold_classes. lia. Qed.
+
+Lemma out_byte_hi : forall c, hi c = true -> out_byte c = c.
+Proof.
+  intros c H. destruct (hi_classes c H) as [Hc [Hl [_ [Hs _]]]]. unfold out_byte, conv. now rewrite Hs, Hc, Hl.
+Qed.
+Lemma out_byte_lo : forall c, hi c = false ->
+  hi (out_byte c) = false /\ (ascii_space (out_byte c) = true -> ascii_space c = true).
+Proof.
+  intros c H. unfold out_byte, conv, hi in *. rewrite andb_false_r. cbn [negb]. rewrite andb_true_r.
+  destruct (is_sep c) eqn:Es; [split; [reflexivity|discriminate]|].
+  destruct (is_cap c) eqn:Ec; [|split; [exact H|auto]].
+  split; unfold_classes; lia.
+Qed.
+
+Lemma loop_hi : forall pc c r, hi c = true ->
+  delimited_go 95 false pc (c :: r) = c :: delimited_go 95 false false r.
+Proof.
+  intros pc c r H. destruct (hi_classes c H) as [Hc [Hl [Hn [Hs _]]]].
+  rewrite delimited_go_cons, Hc, Hl, Hn, Hs. reflexivity.
+Qed.
+
+Lemma loop_head : forall pc c r, exists t,
+  delimited_go 95 false pc (c :: r) = (if is_cap c && pc && head_low r then 95 else out_byte c) :: t.
+Proof.
+  intros pc c r. pose proof (hd_delimited pc c r) as H.
+  destruct (delimited_go 95 false pc (c :: r)) as [|o t] eqn:E; [discriminate|].
+  cbn in H. inversion H as [Ho]. exists t. f_equal. unfold out_byte.
+  destruct (is_cap c) eqn:Ec.
+  - rewrite (cap_not_sep c Ec), orb_false_r. reflexivity.
+  - cbn [andb orb]. reflexivity.
+Qed.
+
+Lemma lead_ok_lo : forall c r, hi c = false -> ascii_space c = false -> lead_ok (c :: r) = true.
+Proof.
+  intros c r H Hs. cbn [lead_ok]. rewrite Hs. cbn [negb andb]. destruct r as [|d r1]; [reflexivity|].
+  assert (E2 : space2 c d = false) by (unfold hi in H; unfold_classes; lia). rewrite E2. cbn [negb andb].
+  destruct r1 as [|e r2]; [reflexivity|].
+  assert (E3 : space3 c d e = false) by (unfold hi in H; unfold_classes; lia). now rewrite E3.
+Qed.
+Lemma trail_ok_lo : forall c r, hi c = false -> ascii_space c = false -> trail_ok (c :: r) = true.
+Proof.
+  intros c r H Hs. cbn [trail_ok]. rewrite Hs. cbn [negb andb]. destruct r as [|d r1]; [reflexivity|].
+  assert (E2 : space2 d c = false) by (unfold hi in H; unfold_classes; lia). rewrite E2. cbn [negb andb].
+  destruct r1 as [|e r2]; [reflexivity|].
+  assert (E3 : space3 e d c = false) by (unfold hi in H; unfold_classes; lia). now rewrite E3.
+Qed.
+
+(* the first output byte of the loop on an ASCII byte: ASCII, and white space only if the input was *)
+Lemma loop_head_lo : forall pc c r, hi c = false -> exists o t,
+  delimited_go 95 false pc (c :: r) = o :: t /\ hi o = false /\ (ascii_space o = true -> ascii_space c = true).
+Proof.
+  intros pc c r H. destruct (loop_head pc c r) as [t Ht]. eexists. exists t. split; [exact Ht|].
+  destruct (is_cap c && pc && head_low r); [split; [reflexivity|discriminate]|]. now apply out_byte_lo.
+Qed.
+
+Theorem lead_ok_loop : forall s pc, lead_ok s = true -> lead_ok (delimited_go 95 false pc s) = true.
+Proof.
+  intros [|c0 r0] pc H; [reflexivity|]. pose proof H as H0. cbn [lead_ok] in H.
+  apply andb_true_iff in H. destruct H as [Hs0 H]. apply negb_true_iff in Hs0.
+  destruct (hi c0) eqn:Eh0.
+  2:{ destruct (loop_head_lo pc c0 r0 Eh0) as [o [t [-> [Ho Hsp]]]]. apply lead_ok_lo; [exact Ho|].
+      destruct (ascii_space o) eqn:E; [|reflexivity]. rewrite (Hsp eq_refl) in Hs0. discriminate. }
+  rewrite (loop_hi pc c0 r0 Eh0). destruct r0 as [|c1 r1]; [cbn; now rewrite Hs0|].
+  apply andb_true_iff in H. destruct H as [H2 H]. apply negb_true_iff in H2.
+  destruct (hi c1) eqn:Eh1.
+  2:{ destruct (loop_head_lo false c1 r1 Eh1) as [o [t [-> [Ho _]]]]. cbn [lead_ok]. rewrite Hs0. cbn [negb andb].
+      assert (E2 : space2 c0 o = false) by (unfold hi in Ho; unfold_classes; lia). rewrite E2. cbn [negb andb].
+      destruct t as [|e t']; [reflexivity|].
+      assert (E3 : space3 c0 o e = false) by (unfold hi in Ho; unfold_classes; lia). now rewrite E3. }
+  rewrite (loop_hi false c1 r1 Eh1). cbn [lead_ok]. rewrite Hs0, H2. cbn [negb andb].
+  destruct r1 as [|c2 r2]; [reflexivity|]. apply negb_true_iff in H.
+  destruct (hi c2) eqn:Eh2.
+  - rewrite (loop_hi false c2 r2 Eh2). now rewrite H.
+  - destruct (loop_head_lo false c2 r2 Eh2) as [o [t [-> [Ho _]]]].
+    assert (E3 : space3 c0 c1 o = false) by (unfold hi in Ho; unfold_classes; lia). now rewrite E3.
+Qed.
+
+(* the last output byte: the loop on a ++ [c] ends with out_byte c, and for c >= 128 the rest is
+   the loop on a *)
+Lemma heads_snoc_hi : forall a c, hi c = true ->
+  head_cap (a ++ [c]) = head_cap a /\ head_low (a ++ [c]) = head_low a /\ head_num (a ++ [c]) = head_num a.
+Proof.
+  intros [|x a] c H; [|repeat split; reflexivity]. destruct (hi_classes c H) as [Hc [Hl [Hn _]]].
+  cbn. now rewrite Hc, Hl, Hn.
+Qed.
+
+Lemma loop_snoc : forall a pc c, exists pre,
+  delimited_go 95 false pc (a ++ [c]) = pre ++ [out_byte c]
+  /\ (hi c = true -> pre = delimited_go 95 false pc a).
+Proof.
+  induction a as [|x a IH]; intros pc c.
+  - exists []. split; [|reflexivity]. cbn [app]. rewrite delimited_go_cons. unfold out_byte. cbn [head_low head_num head_cap].
+    rewrite andb_false_r. cbn [orb app].
+    destruct (is_cap c) eqn:Ec; [now rewrite (cap_not_sep c Ec)|].
+    destruct (is_low c) eqn:El; [now rewrite (low_not_sep c El)|].
+    assert (Ev : conv false c = c) by (unfold conv; rewrite El, Ec; reflexivity). rewrite Ev.
+    destruct (is_num c) eqn:En; [now rewrite (num_not_sep c En)|reflexivity].
+  - cbn [app]. rewrite delimited_go_cons.
+    destruct (is_cap x) eqn:Ec; [|destruct (is_low x) eqn:El; [|destruct (is_num x) eqn:En]].
+    + destruct (IH true c) as [pre [E Hh]]. rewrite E.
+      exists ((if pc && head_low (a ++ [c]) then [95] else []) ++ conv false x ::
+              (if head_num (a ++ [c]) then [95] else []) ++ pre). split.
+      * rewrite <- !app_assoc. cbn [app]. rewrite <- !app_assoc. reflexivity.
+      * intros H. rewrite delimited_go_cons, Ec. destruct (heads_snoc_hi a c H) as [_ [-> ->]].
+        now rewrite (Hh H).
+    + destruct (IH false c) as [pre [E Hh]]. rewrite E.
+      exists (conv false x :: (if head_cap (a ++ [c]) || head_num (a ++ [c]) then [95] else []) ++ pre). split.
+      * cbn [app]. rewrite <- !app_assoc. reflexivity.
+      * intros H. rewrite delimited_go_cons, Ec, El. destruct (heads_snoc_hi a c H) as [-> [_ ->]].
+        now rewrite (Hh H).
+    + destruct (IH false c) as [pre [E Hh]]. rewrite E.
+      exists (x :: (if head_cap (a ++ [c]) || head_low (a ++ [c]) then [95] else []) ++ pre). split.
+      * cbn [app]. rewrite <- !app_assoc. reflexivity.
+      * intros H. rewrite delimited_go_cons, Ec, El, En. destruct (heads_snoc_hi a c H) as [-> [-> _]].
+        now rewrite (Hh H).
+    + destruct (IH false c) as [pre [E Hh]]. rewrite E.
+      exists ((if is_sep x then 95 else x) :: pre). split.
+      * reflexivity.
+      * intros H. rewrite delimited_go_cons, Ec, El, En. now rewrite (Hh H).
+Qed.
+
+Lemma snoc_case : forall (l : list N), l = [] \/ exists a c, l = a ++ [c].
+Proof. intros l. destruct (rev l) as [|c a] eqn:E.
+  - left. apply (f_equal (@rev N)) in E. now rewrite rev_involutive in E.
+  - right. exists (rev a), c. apply (f_equal (@rev N)) in E. now rewrite rev_involutive in E.
+Qed.
+
+Theorem trail_ok_loop : forall s pc, trail_ok (rev s) = true -> trail_ok (rev (delimited_go 95 false pc s)) = true.
+Proof.
+  intros s pc H. destruct (snoc_case s) as [->|[a [c ->]]]; [reflexivity|].
+  rewrite rev_app_distr in H. cbn [rev app] in H. pose proof H as H0. cbn [trail_ok] in H.
+  apply andb_true_iff in H. destruct H as [Hs0 H]. apply negb_true_iff in Hs0.
+  destruct (loop_snoc a pc c) as [pre [E Hh]]. rewrite E, rev_app_distr. cbn [rev app].
+  destruct (hi c) eqn:Eh0.
+  2:{ destruct (out_byte_lo c Eh0) as [Ho Hsp]. apply trail_ok_lo; [exact Ho|].
+      destruct (ascii_space (out_byte c)) eqn:Es; [|reflexivity]. rewrite (Hsp eq_refl) in Hs0. discriminate. }
+  rewrite (out_byte_hi c Eh0), (Hh eq_refl). clear E Hh pre.
+  destruct (snoc_case a) as [->|[a1 [d ->]]]; [cbn; now rewrite Hs0|].
+  rewrite rev_app_distr in H. cbn [rev app] in H.
+  apply andb_true_iff in H. destruct H as [H2 H]. apply negb_true_iff in H2.
+  destruct (loop_snoc a1 pc d) as [pre1 [E1 Hh1]]. rewrite E1, rev_app_distr. cbn [rev app trail_ok].
+  rewrite Hs0. cbn [negb andb].
+  destruct (hi d) eqn:Eh1.
+  2:{ destruct (out_byte_lo d Eh1) as [Ho _].
+      assert (E2 : space2 (out_byte d) c = false) by (unfold hi in Ho; unfold_classes; lia). rewrite E2. cbn [negb andb].
+      destruct (rev pre1) as [|e t]; [reflexivity|].
+      assert (E3 : space3 e (out_byte d) c = false) by (unfold hi in Ho; unfold_classes; lia). now rewrite E3. }
+  rewrite (out_byte_hi d Eh1), (Hh1 eq_refl), H2. cbn [negb andb]. clear E1 Hh1 pre1.
+  destruct (snoc_case a1) as [->|[a2 [e ->]]]; [reflexivity|].
+  rewrite rev_app_distr in H. cbn [rev app] in H. apply negb_true_iff in H.
+  destruct (loop_snoc a2 pc e) as [pre2 [E2 _]]. rewrite E2, rev_app_distr. cbn [rev app].
+  destruct (hi e) eqn:Eh2.
+  - rewrite (out_byte_hi e Eh2). now rewrite H.
+  - destruct (out_byte_lo e Eh2) as [Ho _].
+    assert (E3 : space3 (out_byte e) d c = false) by (unfold hi in Ho; unfold_classes; lia). now rewrite E3.
+Qed.
+
+Theorem trim_space_to_snake : forall n, trim_space (to_snake n) = to_snake n.
+Proof.
+  intros n. unfold to_snake, to_delimited, to_screaming_delimited.
+  destruct (trim_space_ok n) as [Hl Ht]. apply ok_trim_space.
+  - now apply lead_ok_loop.
+  - now apply trail_ok_loop.
+Qed.
+
+(* for ALL byte strings *)
+Theorem to_snake_idem_all : forall n, to_snake (to_snake n) = to_snake n.
+Proof. intros n. apply to_snake_idem_gen, trim_space_to_snake. Qed.
+
+Theorem trim_space_idem : forall s, trim_space (trim_space s) = trim_space s.
+Proof. intros s. destruct (trim_space_ok s) as [Hl Ht]. now apply ok_trim_space. Qed.
